@@ -897,6 +897,225 @@ theorem group_history_view (ops : List Op) : ∀ gs : List String,
     intro gs
     simp only [runHist, believe_append, applyOp_view, ih]
 
+/-! ### a group is subscribed exactly while it is in the table -/
+
+theorem stepX_g (g : String) (fault : Option String) (u : Bool) (s : GX) (st : Step) :
+    (stepX g fault u s st).g = step g fault u s.g st := by
+  unfold stepX
+  split
+  · rename_i h; simp [step, h]
+  · cases st <;> simp only [] <;> (try split) <;> (try split) <;> rfl
+
+/-- the extended run does to the table and the notifications exactly what `run` does -/
+theorem runX_g (g : String) (fault : Option String) (u : Bool) (L : List Step) (s : GX) :
+    (runX g fault u L s).g = run g fault u L s.g := by
+  induction L generalizing s with
+  | nil => rfl
+  | cons st r ih =>
+    show (runX g fault u r (stepX g fault u s st)).g = run g fault u r (step g fault u s.g st)
+    rw [ih, stepX_g]
+
+theorem runX_done (g : String) (fault : Option String) (u : Bool) (L : List Step) (s : GX)
+    (h : s.g.res.isSome = true) : runX g fault u L s = s := by
+  induction L with
+  | nil => rfl
+  | cons st r ih =>
+    have : stepX g fault u s st = s := by simp [stepX, h]
+    simp only [runX, List.foldl_cons, this] at ih ⊢
+    exact ih
+
+theorem runX_cons (g : String) (fault : Option String) (u : Bool) (st : Step) (L : List Step) (s : GX) :
+    runX g fault u (st :: L) s = runX g fault u L (stepX g fault u s st) := rfl
+
+/-- the statement order that keeps "subscribed" and "in the table" together: `before_remove` is called only when the
+    deletion follows at once (no call that can raise, no early return in between -- a *refused* removal must not have
+    unsubscribed the group), and nothing is deleted that has not been unsubscribed.  `pending`: `before_remove` has run,
+    the deletion is due. -/
+def okLive : Bool → List Step → Bool
+  | false, [] => true
+  | true, [] => false
+  | false, .call f :: r => if f = "before_remove" then okLive true r else okLive false r
+  | true, .call _ :: _ => false
+  | false, .insertMade _ :: r => okLive false r
+  | true, .insertMade _ :: _ => false
+  | false, .delete :: _ => false
+  | true, .delete :: r => okLive false r
+  | p, .notify _ :: r => okLive p r
+  | false, .ret _ :: _ => true
+  | true, .ret _ :: _ => false
+  | false, .retIfUnstopped _ :: r => okLive false r
+  | true, .retIfUnstopped _ :: _ => false
+
+def LiveRel (g : String) : Bool → GX → Prop
+  | false, s => s.live = s.g.groups
+  | true, s => s.live = s.g.groups.filter (· ≠ g) ∧ s.g.res = none
+
+theorem filter_ne_of_not_mem (g : String) (l : List String) (h : g ∉ l) : l.filter (· ≠ g) = l := by
+  rw [List.filter_eq_self]
+  intro a ha
+  simp only [ne_eq, decide_not, Bool.not_eq_eq_eq_not, Bool.not_true, decide_eq_false_iff_not]
+  exact fun hh => h (hh ▸ ha)
+
+theorem okLive_sound (g : String) (fault : Option String) (u : Bool) :
+    ∀ (L : List Step) (pend : Bool) (s : GX), okLive pend L = true → LiveRel g pend s →
+      (runX g fault u L s).live = (runX g fault u L s).g.groups := by
+  intro L
+  induction L with
+  | nil =>
+    intro pend s hok hrel
+    cases pend <;> simp [okLive] at hok
+    exact hrel
+  | cons st r ih =>
+    intro pend s hok hrel
+    rw [runX_cons]
+    by_cases hdone : s.g.res.isSome = true
+    · have hs : stepX g fault u s st = s := by simp [stepX, hdone]
+      rw [hs, runX_done _ _ _ _ _ hdone]
+      cases pend
+      · exact hrel
+      · simp only [LiveRel] at hrel; rw [hrel.2] at hdone; simp at hdone
+    · have hnone : s.g.res = none := by cases hr : s.g.res <;> simp_all
+      cases pend <;> cases st <;> simp only [okLive] at hok <;> simp only [LiveRel] at hrel
+      · -- not pending, call f
+        rename_i f
+        by_cases hf : fault = some f
+        · have hs : stepX g fault u s (.call f) = { s with g := { s.g with res := some (.raised f) } } := by
+            simp [stepX, step, hnone, hf]
+          rw [hs, runX_done _ _ _ _ _ (by simp)]
+          exact hrel
+        · by_cases hb : f = "before_remove"
+          · subst hb
+            simp only [if_true] at hok
+            have hs : stepX g fault u s (.call "before_remove") = { g := s.g, live := s.live.filter (· ≠ g) } := by
+              simp [stepX, step, hnone, hf]
+            rw [hs]
+            exact ih true _ hok ⟨by simp [hrel], hnone⟩
+          · simp only [hb, if_false] at hok
+            have hs : stepX g fault u s (.call f) = s := by
+              simp [stepX, step, hnone, hf, hb]
+            rw [hs]
+            exact ih false _ hok hrel
+      · -- not pending, insertMade
+        rename_i f
+        by_cases hf : fault = some f
+        · have hs : stepX g fault u s (.insertMade f) = { s with g := { s.g with res := some (.raised f) } } := by
+            simp [stepX, step, hnone, hf]
+          rw [hs, runX_done _ _ _ _ _ (by simp)]
+          exact hrel
+        · have hs : stepX g fault u s (.insertMade f) =
+              { g := { s.g with groups := if g ∈ s.g.groups then s.g.groups else s.g.groups ++ [g] },
+                live := if g ∈ s.live then s.live else s.live ++ [g] } := by
+            simp [stepX, step, hnone, hf]
+          rw [hs]
+          exact ih false _ hok (by simp [LiveRel, hrel])
+      · -- not pending, delete: excluded
+        simp at hok
+      · -- not pending, notify
+        rename_i cls
+        have hs : stepX g fault u s (.notify cls) =
+            { s with g := { s.g with notes := s.g.notes ++ [⟨cls, g, decide (g ∈ s.g.groups)⟩] } } := by
+          simp [stepX, step, hnone]
+        rw [hs]
+        exact ih false _ hok (by simpa [LiveRel] using hrel)
+      · -- not pending, ret
+        rename_i b
+        have hs : stepX g fault u s (.ret b) = { s with g := { s.g with res := some (.ret b) } } := by
+          simp [stepX, step, hnone]
+        rw [hs, runX_done _ _ _ _ _ (by simp)]
+        exact hrel
+      · -- not pending, retIfUnstopped
+        rename_i b
+        have hs : (stepX g fault u s (.retIfUnstopped b)).live = s.live ∧
+            (stepX g fault u s (.retIfUnstopped b)).g.groups = s.g.groups := by
+          simp only [stepX, hnone, Option.isSome_none, Bool.false_eq_true, if_false, step]
+          split <;> (try split) <;> simp
+        by_cases hd2 : (stepX g fault u s (.retIfUnstopped b)).g.res.isSome = true
+        · rw [runX_done _ _ _ _ _ hd2, hs.1, hs.2]; exact hrel
+        · exact ih false _ hok (by simp only [LiveRel]; rw [hs.1, hs.2]; exact hrel)
+      · simp at hok
+      · simp at hok
+      · -- pending, delete
+        by_cases hm : g ∈ s.g.groups
+        · have hs : stepX g fault u s .delete = { s with g := { s.g with groups := s.g.groups.filter (· ≠ g) } } := by
+            simp [stepX, step, hnone, hm]
+          rw [hs]
+          exact ih false _ hok (by simp only [LiveRel]; exact hrel.1)
+        · have hs : stepX g fault u s .delete = { s with g := { s.g with res := some (.raised "KeyError") } } := by
+            simp [stepX, step, hnone, hm]
+          rw [hs, runX_done _ _ _ _ _ (by simp)]
+          simp only []
+          rw [hrel.1, filter_ne_of_not_mem g _ hm]
+      · -- pending, notify
+        rename_i cls
+        have hs : stepX g fault u s (.notify cls) =
+            { s with g := { s.g with notes := s.g.notes ++ [⟨cls, g, decide (g ∈ s.g.groups)⟩] } } := by
+          simp [stepX, step, hnone]
+        rw [hs]
+        exact ih true _ hok ⟨hrel.1, hnone⟩
+      · simp at hok
+      · simp at hok
+
+/-- the regenerated statement sequences keep subscription and table together (decided on the generated lists) -/
+theorem live_order_ok :
+    okLive false addWhenAbsent = true ∧ okLive false addWhenPresent = true ∧ okLive false removeSteps = true := by decide
+
+/-- **subscribed_while_in_table** (one call): if before the call the live groups are exactly the groups in the table,
+    they are afterwards -- for an addition at every fault point, for a removal whether it goes through, is *refused*
+    because a process is still running (then nothing is unsubscribed: a refused call changes nothing), or fails in
+    `before_remove`. -/
+theorem add_keeps_subscriptions (gs : List String) (g : String) (fault : Option String) :
+    (addGroupX gs gs g fault).live = (addGroupX gs gs g fault).g.groups ∧
+    (addGroupX gs gs g fault).g = addGroup gs g fault := by
+  unfold addGroupX addGroup
+  split
+  · exact ⟨okLive_sound g fault false _ false _ live_order_ok.2.1 rfl, runX_g _ _ _ _ _⟩
+  · exact ⟨okLive_sound g fault false _ false _ live_order_ok.1 rfl, runX_g _ _ _ _ _⟩
+
+theorem remove_keeps_subscriptions (gs : List String) (g : String) (unstopped : Bool) (fault : Option String) :
+    (removeGroupX gs gs g unstopped fault).live = (removeGroupX gs gs g unstopped fault).g.groups ∧
+    (removeGroupX gs gs g unstopped fault).g = removeGroup gs g unstopped fault :=
+  ⟨okLive_sound g fault unstopped _ false _ live_order_ok.2.2 rfl, runX_g _ _ _ _ _⟩
+
+/-- **a refused removal changes nothing**: when `remove_process_group` answers False (a process of the group is not
+    stopped) the table, the live groups (the pool's subscriptions) and the notifications are what they were -/
+theorem refused_removal_changes_nothing (gs : List String) (g : String) (fault : Option String)
+    (h : (removeGroup gs g true fault).res = some (.ret false)) :
+    (removeGroupX gs gs g true fault).live = gs ∧ (removeGroup gs g true fault).groups = gs ∧
+    (removeGroup gs g true fault).notes = [] := by
+  have h1 := remove_keeps_subscriptions gs g true fault
+  rcases remove_truthful gs g true fault with h2 | h2
+  · exact absurd h h2.2.2.2
+  · rw [h1.1, h1.2]; exact ⟨h2.2.1, h2.2.1, h2.1⟩
+
+/-- the refusal is reachable, and then the pool "b" is still live -/
+example : (removeGroup ["a", "b"] "b" true none).res = some (.ret false) ∧
+    (removeGroupX ["a", "b"] ["a", "b"] "b" true none).live = ["a", "b"] := by decide
+
+/-- a history of calls, with the live groups threaded through like the table -/
+def runHistX : List String → List String → List Op → List String × List String
+  | gs, live, [] => (gs, live)
+  | gs, live, .add g f :: r => runHistX (addGroupX gs live g f).g.groups (addGroupX gs live g f).live r
+  | gs, live, .remove g u f :: r => runHistX (removeGroupX gs live g u f).g.groups (removeGroupX gs live g u f).live r
+
+/-- **subscribed_while_in_table** (every history of additions and removals, every fault point, refused removals and
+    retries included): at the end the live groups are exactly the groups in `supervisord.process_groups` -- a listener
+    pool is subscribed exactly while it is in the table -/
+theorem group_history_subscriptions (ops : List Op) : ∀ gs : List String,
+    (runHistX gs gs ops).2 = (runHistX gs gs ops).1 := by
+  induction ops with
+  | nil => intro gs; rfl
+  | cons op r ih =>
+    intro gs
+    cases op with
+    | add g f =>
+      simp only [runHistX]
+      rw [(add_keeps_subscriptions gs g f).1]
+      exact ih _
+    | remove g u f =>
+      simp only [runHistX]
+      rw [(remove_keeps_subscriptions gs g u f).1]
+      exact ih _
+
 /-! ### output notifications while a child is reaped -/
 
 /-- every output event the dispatcher raises is created with the process's current pid, and the event classes
